@@ -1,6 +1,7 @@
 package varutil
 
 import (
+	"math/bits"
 	"math/rand"
 	"sync"
 	"time"
@@ -23,10 +24,6 @@ const (
 	UpperAlphaNumericBytes = "ABCDEFGHIJKLMNOPQRSTUVWXYZ1234567890"
 	// StrongBytes is set of numeric, alphabetic and special characters for RandString function
 	StrongBytes = "abcdefghijklmnopqrstuvwxyzABCDEFGHIJKLMNOPQRSTUVWXYZ1234567890!@#$%^&*()`~<>?:[]{}-=_+|\\/,."
-
-	letterIdxBits = 6                    // 6 bits to represent a letter index
-	letterIdxMask = 1<<letterIdxBits - 1 // All 1-bits, as many as letterIdxBits
-	letterIdxMax  = 63 / letterIdxBits   // # of letter indices fitting in 63 bits
 )
 
 var (
@@ -43,17 +40,24 @@ func int63() int64 {
 
 // RandString create new random string
 func RandString(n int, pool string) string {
+	// a letter index has just enough bits to reach every character of the pool
+	idxBits := uint(1)
+	if len(pool) > 2 {
+		idxBits = uint(bits.Len(uint(len(pool) - 1)))
+	}
+	idxMask := int64(1)<<idxBits - 1 // All 1-bits, as many as idxBits
+	idxMax := 63 / int(idxBits)      // # of letter indices fitting in 63 bits
 	b := make([]byte, n)
-	// A src.Int63() generates 63 random bits, enough for letterIdxMax characters!
-	for i, cache, remain := n-1, int63(), letterIdxMax; i >= 0; {
+	// A src.Int63() generates 63 random bits, enough for idxMax characters!
+	for i, cache, remain := n-1, int63(), idxMax; i >= 0; {
 		if remain == 0 {
-			cache, remain = int63(), letterIdxMax
+			cache, remain = int63(), idxMax
 		}
-		if idx := int(cache & letterIdxMask); idx < len(pool) {
+		if idx := int(cache & idxMask); idx < len(pool) {
 			b[i] = pool[idx]
 			i--
 		}
-		cache >>= letterIdxBits
+		cache >>= idxBits
 		remain--
 	}
 	return string(b)
